@@ -161,6 +161,9 @@ func runC01(c *core.Ctx) {
 		{"prepared-round-not-later", "le(p2.Message.DataRound, p4)", "prepared round must not exceed the round"},
 	})
 
+	// the BLS helper behind every per-type validator: unknown signers refused
+	checkVerifyByOperators(c, "C01-R2")
+
 	// ---------------- R3
 	ipj := instPkg + ".isProposalJustification"
 	ensures(c, "C01-R3", ipj, "err=nil", []Req{
@@ -307,6 +310,7 @@ func runC01(c *core.Ctx) {
 func checkConfigLiterals(c *core.Ctx) { checkConfigLiteralsRule(c, "C01-R6") }
 
 func checkConfigLiteralsRule(c *core.Ctx, rule string) {
+	checkQuorumStores(c, rule)
 	cfgT, err := c.P.LookupType(ssv + "protocol/v2/qbft.Config")
 	if err != nil {
 		c.Undischarged(rule, "anchor:qbft.Config", err.Error())
@@ -519,3 +523,84 @@ func canonArith(n *ens.Node) string {
 }
 
 var _ = strings.Contains
+
+// checkQuorumStores: every write of Share.Quorum / Share.PartialQuorum in the node takes the first
+// resp. second result of ComputeQuorumAndPartialQuorum applied to the length of the committee that
+// the same share carries (swapped results give a quorum of f+1 after a reload from the database).
+func checkQuorumStores(c *core.Ctx, rule string) {
+	fixtures := map[string]string{
+		"github.com/bloxapp/ssv/protocol/v2/qbft.init":  "TestingShare fixture of the test utilities",
+		"ssv/protocol/v2/qbft/testing.TestingShare":      "test fixture built from a key set's thresholds",
+		"ssv/protocol/v2/ssv/validator.Validator.logMsg": "",
+	}
+	n := 0
+	for i, fld := range []string{"Quorum", "PartialQuorum"} {
+		fv, err := c.P.LookupField(spec + "types.Share." + fld)
+		if err != nil {
+			c.Undischarged(rule, "anchor:Share."+fld, err.Error())
+			continue
+		}
+		for _, s := range writersOf(c, fv) {
+			st, ok := s.Instr.(*ssa.Store)
+			if !ok {
+				continue
+			}
+			encl := ens.SSAFuncName(topFunc(s.Encl))
+			construct := fmt.Sprintf("Share.%s|writer %s", fld, encl)
+			if strings.HasPrefix(encl, "ssv-spec/") {
+				continue
+			}
+			if why, ok := fixtures[encl]; ok && why != "" {
+				c.OK(rule, construct, c.P.Pos(st.Pos()), "allow-listed: "+why)
+				continue
+			}
+			n++
+			a := c.E.Analyze(s.Encl)
+			val := a.D.D(st.Val)
+			// ComputeQuorumAndPartialQuorum is a pure expression function: its results appear inlined
+			got := canonArith(val)
+			pre, post := []string{"uint64(((((", "uint64(((("}[i], []string{" - 1) / 3) * 2) + 1))", " - 1) / 3) + 1))"}[i]
+			if !strings.HasPrefix(got, pre) || !strings.HasSuffix(got, post) {
+				c.Fail(rule, construct, c.P.Pos(st.Pos()), fmt.Sprintf("Share.%s is set to %s; it must be result %d of ComputeQuorumAndPartialQuorum(len(committee)): quorum 2f+1 first, partial quorum f+1 second", fld, clip(got), i))
+				continue
+			}
+			arg := got[len(pre) : len(got)-len(post)]
+			base := ""
+			if fa, ok := st.Addr.(*ssa.FieldAddr); ok {
+				base = a.D.D(fa.X).String()
+			}
+			okArg := strings.HasPrefix(arg, "len(") && strings.HasSuffix(arg, ")")
+			if okArg {
+				inner := arg[4 : len(arg)-1]
+				sameShare := base != "" && (inner == base+".Committee" || strings.HasSuffix(inner, ".Committee") && strings.HasPrefix(base, strings.TrimSuffix(inner, ".Committee")))
+				if !sameShare {
+					// or the slice is stored as this share's committee in the same function
+					for _, b := range s.Encl.Blocks {
+						for _, in := range b.Instrs {
+							if st2, ok := in.(*ssa.Store); ok {
+								if fa2, ok := st2.Addr.(*ssa.FieldAddr); ok && fieldName(fa2) == "Committee" && a.D.D(st2.Val).String() == inner {
+									sameShare = true
+								}
+							}
+						}
+					}
+				}
+				okArg = sameShare
+			}
+			c.Decide(okArg, rule, construct, c.P.Pos(st.Pos()), "result "+fmt.Sprint(i)+" of ComputeQuorumAndPartialQuorum(len(committee))",
+				fmt.Sprintf("Share.%s is computed from %s, not from the length of the share's own committee", fld, clip(arg)))
+		}
+	}
+	c.Min(rule, n, 4, "writes of Share.Quorum / Share.PartialQuorum outside fixtures")
+}
+
+func fieldName(fa *ssa.FieldAddr) string {
+	t := fa.X.Type().Underlying()
+	if p, ok := t.(*types.Pointer); ok {
+		t = p.Elem().Underlying()
+	}
+	if st, ok := t.(*types.Struct); ok && fa.Field < st.NumFields() {
+		return st.Field(fa.Field).Name()
+	}
+	return ""
+}
